@@ -13,11 +13,10 @@ import vlib
 
 PID = "C14"
 
-QUICK = ["1x1", "1x4", "2x2:rmw:j", "2x8", "3x3:rmw:j", "4x4:rmw:j", "4x8",
-         "2x4:save", "3x2:save:j", "4x2:save",
-         "4x4:fresh", "3x8:fresh", "4x2:fresh:j", "2x8:fresh",
+QUICK = ["1x4", "2x2:rmw:j", "3x3:rmw:j", "4x8", "2x4:save", "4x2:save",
+         "4x4:fresh", "3x8:fresh",       # fresh: nobody creates the record, the first updates race on an absent file
          "3x4:clear", "2x4:clear:j",     # clear: long-lived writer objects; updates that set / CLEAR ExtraData between the others' single-field updates
-         "3x4:final", "4x4:final:j"]   # final: >= 3 parties keep updating a record that is and stays in a final state   # fresh: nobody creates the record, the first updates race on an absent file
+         "3x4:final", "4x4:final:j"]     # final: >= 3 parties keep updating a record that is and stays in a final state
 THOROUGH_TLC = ["1x1", "1x8", "2x1:rmw:j", "2x2:rmw:j", "2x8:rmw:j", "3x3:rmw:j", "3x8", "4x1:rmw:j", "4x2:rmw:j", "4x4:rmw:j", "4x8:rmw:j",
                 "1x4:save", "2x4:save:j", "3x2:save:j", "4x2:save:j", "4x4:save:j",
                 "4x4:fresh", "3x8:fresh", "4x2:fresh:j", "2x8:fresh", "4x8:fresh", "2x2:fresh", "3x3:fresh:j", "4x4:fresh:j",
@@ -69,9 +68,11 @@ def _run(tier, seed, replay=None):
     rf = vlib.tlc("StatusFileMC", "sf_fresh.cfg", wd, timeout=1500, cfg_text=fresh_text)
     if not rf.ok:
         raise vlib.Inconclusive("TLC did not succeed on the fresh-file configuration (exit %s, violated=%s)" % (rf.exit, rf.violated))
-    for name, inv in (("StatusFile_wit_noloadlock.cfg", "NoTornRead"), ("StatusFile_wit_nosavelock.cfg", "NoTornRead"),
+    allv = (("StatusFile_wit_noloadlock.cfg", "NoTornRead"), ("StatusFile_wit_nosavelock.cfg", "NoTornRead"),
                       ("StatusFile_wit_noreread.cfg", "NoLostUpdate"), ("StatusFile_wit_statbeforelock.cfg", "NoLostUpdate"),
-                      ("StatusFile_wit_unlinklock.cfg", "Mutex"), ("StatusFile_wit_keepabsent.cfg", "ReadReplacesAll")):
+                      ("StatusFile_wit_unlinklock.cfg", "Mutex"), ("StatusFile_wit_keepabsent.cfg", "ReadReplacesAll"))
+    # quick keeps the number of TLC launches small: three must-fail variants, all seven in thorough
+    for name, inv in (allv if tier != "quick" else [x for x in allv if x[0] in ("StatusFile_wit_noreread.cfg", "StatusFile_wit_unlinklock.cfg", "StatusFile_wit_keepabsent.cfg")]):
         w = vlib.tlc("StatusFileMC", name, wd, timeout=600)
         if w.violated != inv:
             raise vlib.Inconclusive("variant %s did not violate %s (exit %s)" % (name, inv, w.exit))
